@@ -452,11 +452,12 @@ func (n *Node) Reattach() error {
 	n.Conn = conn
 	n.Exec = consensus.NewExecuter(&consensus.ExecuterConfig{CTX: n.Ctx, ABI: n.ABI, Chain: n.Chain, Conn: conn,
 		BlockTime: n.Opt.BlockTime, BatchSize: n.Opt.BatchSize})
+	// ONE buffered channel for all topics: the publication order across topics is observable (Finalize before/after New, …)
 	n.chans = map[string]chan interface{}{}
+	all := make(chan interface{}, 16384)
+	n.chans["*"] = all
 	for _, t := range topics {
-		ch := make(chan interface{}, 4096)
-		n.chans[t] = ch
-		n.Exec.VerifC03On(t, ch)
+		n.Exec.VerifC03On(t, all)
 	}
 	return n.Exec.Init(&consensus.ExecuterInitParam{CTX: n.Ctx, Logger: lg, Database: n.DB, GenesisBlock: n.Genesis})
 }
@@ -747,12 +748,11 @@ func DiffKeys(a, b []KV) []string {
 	return out
 }
 
-// DrainEvents returns the events published since the previous drain. Order is publication order within a topic;
-// across topics the Executer's fixed order per step is Delete | Finalize, New, ValidatorsChange, which is how they
-// are merged here (each step of the code publishes at most one event per topic).
+// DrainEvents returns the events published since the previous drain, in publication order (all topics share one
+// buffered channel, so the order across topics is the real one).
 func (n *Node) DrainEvents() []Ev {
 	out := []Ev{}
-	for _, t := range []string{consensus.EventBlockDelete, consensus.EventBlockFinalize, consensus.EventBlockNew, consensus.EventValidatorsChange} {
+	for _, t := range []string{"*"} {
 		ch := n.chans[t]
 		for {
 			select {
